@@ -607,8 +607,27 @@ impl RoutingThread {
     async fn process_ghost_chain(&mut self, chain: GhostChainSync, peer_index: u64) {
         debug!("processing ghost chain from peer : {:?}", peer_index);
 
+        {
+            // a ghost chain is only ever asked for (after the handshake) by a lite node
+            let peers = self.network.peer_lock.read().await;
+            let peer = peers.find_peer_by_index(peer_index);
+            if peer.is_none() || peer.unwrap().public_key.is_none() {
+                warn!(
+                    "ignoring ghost chain from peer : {:?} without a verified key",
+                    peer_index
+                );
+                return;
+            }
+        }
         let mut previous_block_hash = chain.start;
         let configs = self.config_lock.read().await;
+        if !configs.is_spv_mode() && !configs.is_browser() {
+            warn!(
+                "ignoring unsolicited ghost chain from peer : {:?} since this is not a lite node",
+                peer_index
+            );
+            return;
+        }
         let mut blockchain = self.blockchain_lock.write().await;
         let mut lowest_id_to_reorg = 0;
         let mut lowest_hash_to_reorg = [0; 32];
